@@ -55,26 +55,29 @@ where
 
         if self.q_vals.is_empty() {
             self.oldest_val = val;
-            self.last_val = val;
         }
         if self.q_vals.len() >= self.window_len {
-            let old_val = self.q_vals.pop_front().unwrap();
-            if old_val > self.oldest_val {
-                self.cu = self.cu - (old_val - self.oldest_val);
-            } else {
-                self.cd = self.cd - (self.oldest_val - old_val);
-            }
-            self.oldest_val = old_val;
+            // the value leaving the window becomes the reference of the oldest change inside it
+            self.oldest_val = self.q_vals.pop_front().unwrap();
         }
         self.q_vals.push_back(val);
-
-        // accumulate 'closes up' and 'closes down'
-        if val > self.last_val {
-            self.cu = self.cu + val - self.last_val;
-        } else {
-            self.cd = self.cd + self.last_val - val;
-        }
         self.last_val = val;
+
+        // 'closes up' and 'closes down' over the changes inside the window, summed afresh on every
+        // update so that no rounding residue of changes that have left the window can accumulate
+        let mut cu = T::zero();
+        let mut cd = T::zero();
+        let mut prev = self.oldest_val;
+        for v in self.q_vals.iter() {
+            if *v > prev {
+                cu = cu + *v - prev;
+            } else {
+                cd = cd + prev - *v;
+            }
+            prev = *v;
+        }
+        self.cu = cu;
+        self.cd = cd;
 
         if self.cu + self.cd != T::zero() {
             self.out = (self.cu - self.cd) / (self.cu + self.cd);
